@@ -41,10 +41,12 @@ PosLifeHi(cfg, q, recs) ==
        LifeOf(cfg, q, {StoredTtl(cfg, recs[i]) : i \in rel}))
 
 \* negative entries: "kept no longer than its negative TTL clamped to the configured negative
-\* bounds"; without a negative TTL nothing but the bounds is fixed
+\* bounds"; a negative answer that carries no negative TTL (no SOA) has nothing that would let it
+\* be kept at all (RFC 2308 section 5: such answers SHOULD NOT be cached): its negative TTL is 0,
+\* so only a configured negative minimum keeps it
 NegLifeHi(cfg, q, negttl) ==
     LET b == BoundsFor(cfg, q.type) IN
-    IF negttl < 0 THEN b.nmax ELSE ClampTo(negttl, b.nmin, b.nmax)
+    ClampTo(IF negttl < 0 THEN 0 ELSE negttl, b.nmin, b.nmax)
 
 \* the negative TTL of a response (RFC 2308 section 5): the minimum of the SOA record's TTL and
 \* the SOA MINIMUM field
